@@ -410,3 +410,7 @@ P("C17", level="other",
   explanation="the Easter clause is proved for all years; the SHIFT clauses are not covered",
   not_covered=["shift(): calendar-day and business-day shifts, -0B, B+/B-", "fill_yly_eastr: N days from Easter across the year boundary", "snarf_shift text parsing"])
 P("C13", not_applicable="executor output routing is kernel/process behaviour (pipes, splice/tee/sendfile, exec, signals, waitpid): no function contract within CBMC's reach can express 'every byte the job writes arrives exactly once'; proving a model of the kernel would be a different technique family (DESIGN.md section 7)")
+O("C16.refill", ["C16", "C01", "C05"], "h_C16.c", "h_C16_refill",
+  "refill at the 64-occurrence boundary: 63 delivered and the 64th held back as the next seed (never lost, never twice), shorter batches end the stream, COUNT decreases by exactly the number delivered; for every FREQ and COUNT",
+  ["refill"], solver=["minisat", "kissat"], timeout={"quick": 600, "thorough": 1800}, unwind=66, replay=False, replay_note="filler stubs use nondet results",
+  assumptions=["the seven fillers are represented by a stub with their contract (n <= asked, n <= COUNT); zone offset, rescale and sort by identity stubs"])
